@@ -9,6 +9,21 @@ from .runtime_common import RUNTIME_ASSUMPTIONS
 def run(tier):
     pr = PropertyRun('C19', tier, level='other')
     run_contracts(pr, [FILTER_DATA, ADD_CALCULATED_FIELD, SORT_DATA_FN, TOP_DATA, VALUE_PARSE_DATETIME], tier)
+    # join_data is not under contract: bounded native stand-in (the data witness program also re-runs the filter and
+    # calculated-field scenarios natively)
+    from contracts.data_c import DATA_WITNESS
+    from pyvc.replay import run_witness
+    res = run_witness(DATA_WITNESS, timeout=300)
+    pr.bounded.append('data.join_data: bounded native stand-in — 20 pairs of tables whose field names collide in every way (a, a2, a3, b), '
+                      'checked structurally: left fields never overwritten, every right value present under one stable non-left name, '
+                      'row count and order')
+    if res.get('violates'):
+        cx = res['counterexamples'][0]
+        pr.failures.append({'obligation': 'C19.bounded.' + str(cx.get('what', 'data-witness')).replace(' ', '-'), 'function': 'data.join_data',
+                            'path': '', 'inputs': cx, 'replay': {'reproduced': True, 'observed': res['counterexamples']},
+                            'solver': {'backend': 'native-bounded', 'verdict': 'counterexample', 'output': ''}})
+    elif 'error' in res:
+        pr.errors.append('data witness failed to run: ' + str(res['error'])[-300:])
     pr.bounded.append('data.top_data: loops over the table are unrolled twice over symbolic rows (bounded, k=2); proved on that bound: no '
                       'exception for a valid count in either spelling, result is a fresh list')
     pr.explanation = ('Proved on the real code: filter_data keeps exactly the rows whose expression value is truthy, in order '
@@ -22,6 +37,6 @@ def run(tier):
         'expressions returned by parse_expression are evaluated under the evaluate_expression contract instantiated for them (meta-argument); data._import_evaluate_expression returns runtime.evaluate_expression',
         'rows are objects distinct from the options and globals objects',
     ]
-    pr.not_proved += ['data.join_data, data.aggregate_data, data.validate_data, library._data_parse_csv: not under contract',
+    pr.not_proved += ['data.join_data (bounded native stand-in only), data.aggregate_data, data.validate_data, library._data_parse_csv: not under contract',
                       'data.top_data: category bucketing semantics (first n rows per category) not under contract']
     return pr
